@@ -16,12 +16,13 @@ import (
 type c13Case struct {
 	Part  string `json:"part"` // expr | pipe | error
 	Expr  string `json:"expr"`
-	Shape string `json:"shape"`          // shape class of the expression (for signatures)
-	Want  string `json:"want,omitempty"` // expected value in canonical form "type:value" (expr/pipe)
-	Fn    string `json:"fn,omitempty"`   // error: function name that must be named
+	Shape string `json:"shape"`           // shape class of the expression (for signatures)
+	Want  string `json:"want,omitempty"`  // expected value in canonical form "type:value" (expr/pipe)
+	Fn    string `json:"fn,omitempty"`    // error: function name that must be named
+	First string `json:"first,omitempty"` // pair: the expression evaluated before Expr on the same engine
 }
 
-func (c *c13Case) Key() string { return c.Part + "|" + c.Expr }
+func (c *c13Case) Key() string { return c.Part + "|" + c.Expr + "|" + c.First }
 
 // ---- typed environment and reference evaluation
 
@@ -33,6 +34,7 @@ type c13Struct struct {
 func c13Env() map[string]any {
 	return map[string]any{
 		"n": 5, "k": 2, "f": 1.5, "s": "str", "e": "", "t": true, "b": false, "ns": "42",
+		"sp1": "a b", "sp2": "a  b", "up": "A  b",
 		"m":  map[string]any{"k": "mk", "l": []any{"x", "y"}, "n": 7},
 		"l":  []int{10, 20},
 		"st": c13Struct{Field: "SF", Num: 3},
@@ -329,6 +331,11 @@ func c13Funcs() vuego.FuncMap {
 // c13Observe renders expr in a position. It returns the canonical observation:
 // mustache: text; bind: attribute value or "<omitted>"; vif/velseif/vshow: "true"/"false".
 func c13Observe(ctx *core.Ctx, pos, expr string) (string, error) {
+	return c13ObserveOn(ctx, vuego.New(vuego.WithFuncs(c13Funcs())), pos, expr)
+}
+
+// c13ObserveOn does the same on a given (possibly already used) engine.
+func c13ObserveOn(ctx *core.Ctx, t vuego.Template, pos, expr string) (string, error) {
 	q := `"`
 	if strings.Contains(expr, `"`) {
 		if strings.Contains(expr, "'") && pos != "mustache" {
@@ -351,8 +358,7 @@ func c13Observe(ctx *core.Ctx, pos, expr string) (string, error) {
 	}
 	var buf bytes.Buffer
 	ctx.Eval(1)
-	t := vuego.New(vuego.WithFuncs(c13Funcs()))
-	if err := t.Fill(c13Env()).RenderString(bg, &buf, tpl); err != nil {
+	if err := t.New().Fill(c13Env()).RenderString(bg, &buf, tpl); err != nil {
 		return "", err
 	}
 	r := htmlcmp.ByID(htmlcmp.Parse(buf.String()), "r")
@@ -446,6 +452,23 @@ func (c *c13Case) Run(ctx *core.Ctx) {
 			}
 		}
 		ctx.Outcome(fmt.Sprint(obs))
+	case "pair":
+		// two expressions that look alike, one after the other on ONE engine: the second must
+		// have the value it has alone (compiled-expression caches, parsed-path caches)
+		for _, pos := range c13Positions {
+			alone, err0 := c13Observe(ctx, pos, c.Expr)
+			if err0 != nil && err0.Error() == "unquotable" {
+				continue
+			}
+			shared := vuego.New(vuego.WithFuncs(c13Funcs()))
+			if _, err := c13ObserveOn(ctx, shared, pos, c.First); err != nil && err.Error() == "unquotable" {
+				continue
+			}
+			got, err := c13ObserveOn(ctx, shared, pos, c.Expr)
+			if (err != nil) != (err0 != nil) || got != alone {
+				ctx.Violation("depends-on-earlier-expression", pos, c.Shape, fmt.Sprintf("%s in %s: alone %q (err %v), after %s on the same engine %q (err %v)", c.Expr, pos, alone, err0, c.First, got, err))
+			}
+		}
 	case "error":
 		for _, pos := range []string{"mustache", "bind", "vif", "vshow"} {
 			got, err := c13Observe(ctx, pos, c.Expr)
@@ -630,6 +653,20 @@ func init() {
 			emit(&c13Case{Part: "pipe", Expr: "isbig(n)", Shape: "call", Want: "bool:true"})
 			emit(&c13Case{Part: "pipe", Expr: "n | . > 3 ? 'big' : 'small'", Shape: "pipe-dot-expr", Want: "string:big"})
 			emit(&c13Case{Part: "pipe", Expr: "n | double | . > 3", Shape: "pipe-dot-expr", Want: "bool:true"})
+			// look-alike pairs on one engine
+			alike := []string{
+				`sp2 == 'a  b'`, `sp2 == 'a b'`, `sp1 == 'a b'`, `sp1 == 'a  b'`, `sp2 == "a  b"`, `sp2=='a  b'`, ` sp2 == 'a  b' `, `sp2  ==  'a  b'`,
+				`sp2 == 'A  b'`, `up == 'A  b'`, `sp2 != 'a b'`, `'a  b' == sp2`, `'a b' == sp2`, `sp2 == 'a  b' ? 'one' : 'two'`, `sp2 == 'a b' ? 'one' : 'two'`,
+				`sp1 | prefix('x  ')`, `sp1 | prefix('x ')`, `sp1 | prefix("x  ")`, `n == 5`, `n ==5`, `n == 50`, `n == 5.0`, `m.k == 'mk'`, `m.k == 'mk '`, `m.k == ' mk'`,
+				`m.l[0] == 'x'`, `m.l[1] == 'x'`, `m.l[ 0 ] == 'x'`, `l[0] + l[1]`, `l[1] + l[0]`, `l[0]+l[1]`, `s`, ` s `, `s | upper`, `s|upper`, `S`, `st.Field`, `st.field`,
+			}
+			for _, e1 := range alike {
+				for _, e2 := range alike {
+					if e1 != e2 {
+						emit(&c13Case{Part: "pair", First: e1, Expr: e2, Shape: "look-alike"})
+					}
+				}
+			}
 			// errors
 			for _, e := range []struct{ expr, shape, fn string }{
 				{"s | nosuch", "unknown-function", "nosuch"}, {"nosuch(s)", "unknown-function-call", "nosuch"}, {"fail(s)", "function-error-call", "fail"}, {"double(s)", "impossible-conversion-call", "double"}, {"addn(n)", "wrong-arity-call", "addn"}, {"s | upper | nosuch2", "unknown-function", "nosuch2"},
